@@ -1891,7 +1891,7 @@ def rule_replay_or_evaluate(db: ProgramDB) -> List[Instance]:
                 n += 1
 
                 def evaluates_operand(nd):
-                    return nd.ast is not None and nd.kind in ("stmt", "for", "return", "test") and nd.id not in {s_.id for s_ in starts} and any(
+                    return nd.ast is not None and nd.kind in ("stmt", "for", "return", "test") and nd.id not in {s_.id for s_ in starts} and nd.id not in heads and any(
                         isinstance(y, ast.Call) and isinstance(y.func, ast.Attribute) and y.func.attr.startswith("_evaluate") and
                         isinstance(y.func.value, ast.Attribute) and unparse(y.func.value.value) == "self"
                         for y in ast.walk(nd.ast if nd.kind != "for" else nd.ast.iter))
